@@ -14,6 +14,7 @@ APPEND = {
     "timezone_mod.rs": "src/timezone/mod.rs",
     "datetime_mod.rs": "src/datetime/mod.rs",
     "datetime_find.rs": "src/datetime/find.rs",
+    "find_abstractions.rs": "src/datetime/find.rs",
     "std_specs.rs": "src/utils/const_fns.rs",
     "parse_tz_file.rs": "src/parse/tz_file.rs",
     "rule.rs": "src/timezone/rule.rs",
